@@ -89,6 +89,15 @@ func ExecuteSubscription(p ExecuteParams) chan *Result {
 		})
 	}
 	var resultChannel = make(chan *Result)
+	// send hands a single result to the consumer unless the context is
+	// cancelled first: a consumer that stopped reading must not keep this
+	// goroutine blocked forever.
+	send := func(r *Result) {
+		select {
+		case <-p.Context.Done():
+		case resultChannel <- r:
+		}
+	}
 	go func() {
 		defer close(resultChannel)
 		defer func() {
@@ -97,9 +106,9 @@ func ExecuteSubscription(p ExecuteParams) chan *Result {
 				if !ok {
 					return
 				}
-				resultChannel <- &Result{
+				send(&Result{
 					Errors: gqlerrors.FormatErrors(e),
-				}
+				})
 			}
 			return
 		}()
@@ -114,18 +123,18 @@ func ExecuteSubscription(p ExecuteParams) chan *Result {
 		})
 
 		if err != nil {
-			resultChannel <- &Result{
+			send(&Result{
 				Errors: gqlerrors.FormatErrors(err),
-			}
+			})
 
 			return
 		}
 
 		operationType, err := getOperationRootType(p.Schema, exeContext.Operation)
 		if err != nil {
-			resultChannel <- &Result{
+			send(&Result{
 				Errors: gqlerrors.FormatErrors(err),
-			}
+			})
 
 			return
 		}
@@ -155,9 +164,9 @@ func ExecuteSubscription(p ExecuteParams) chan *Result {
 		fieldDef := getFieldDef(p.Schema, operationType, fieldName)
 
 		if fieldDef == nil {
-			resultChannel <- &Result{
+			send(&Result{
 				Errors: gqlerrors.FormatErrors(fmt.Errorf("the subscription field %q is not defined", fieldName)),
-			}
+			})
 
 			return
 		}
@@ -165,9 +174,9 @@ func ExecuteSubscription(p ExecuteParams) chan *Result {
 		resolveFn := fieldDef.Subscribe
 
 		if resolveFn == nil {
-			resultChannel <- &Result{
+			send(&Result{
 				Errors: gqlerrors.FormatErrors(fmt.Errorf("the subscription function %q is not defined", fieldName)),
-			}
+			})
 			return
 		}
 		fieldPath := &ResponsePath{
@@ -195,17 +204,17 @@ func ExecuteSubscription(p ExecuteParams) chan *Result {
 			Context: p.Context,
 		})
 		if err != nil {
-			resultChannel <- &Result{
+			send(&Result{
 				Errors: gqlerrors.FormatErrors(err),
-			}
+			})
 
 			return
 		}
 
 		if fieldResult == nil {
-			resultChannel <- &Result{
+			send(&Result{
 				Errors: gqlerrors.FormatErrors(fmt.Errorf("no field result")),
-			}
+			})
 
 			return
 		}
@@ -230,7 +239,7 @@ func ExecuteSubscription(p ExecuteParams) chan *Result {
 				}
 			}
 		default:
-			resultChannel <- mapSourceToResponse(fieldResult)
+			send(mapSourceToResponse(fieldResult))
 			return
 		}
 	}()
